@@ -662,6 +662,19 @@ def directed(prop):
         out.append(dict(tests=tests, retries=1, delay_ms=1500, backoff="fixed", failfast="noff", threads=2, filter=None,
                         run_ignored="default", sigint_at=0.6, priorities=None, groups=None,
                         retry_only="t00_a"))
+    if prop in ("C02", "C17"):
+        # a signal-cancelled run still reports every unselected test as skipped (the queue is walked to its
+        # end): unselected tests lie behind the test that is running when SIGINT arrives
+        tests = [dict(bin="alpha::t1", name="t00_a", ignored=False,
+                      attempts=[{"sleep": 1.5, "exit": 0, "on_term": "die"}], expect=["pass"], mode="pass")]
+        tests += [dict(bin="alpha::t1", name=f"t{i:02d}_b", ignored=False, attempts=[{"sleep": 0.02, "exit": 0}],
+                       expect=["pass"], mode="pass") for i in range(1, 5)]
+        tests += [dict(bin="beta::t1", name="t05_b", ignored=True, attempts=[{"sleep": 0.02, "exit": 0}],
+                       expect=["pass"], mode="pass"),
+                  dict(bin="beta::t1", name="t06_a", ignored=False, attempts=[{"sleep": 0.02, "exit": 0}],
+                       expect=["pass"], mode="pass")]
+        out.append(dict(tests=tests, retries=0, delay_ms=0, backoff="fixed", failfast="noff", threads=1, filter="_a",
+                        run_ignored="default", sigint_at=0.4, priorities=None, groups=None))
     if prop in ("C01", "C03", "C17"):
         # terminated by nextest at its deadline, exits with status 0 within the grace period: the attempt
         # timed out, the run failed (exit status 100)
